@@ -13,8 +13,31 @@ import MobiusModel.FileOps
 namespace Oracle
 open Mobius Mobius.PathAlg Mobius.PathStr Mobius.FS Mobius.FileOps
 
+/-- An ignore predicate given extensionally: `n<hex name>,n<hex name>,…` (`-` = nothing is ignored) — exactly the
+    listed names are ignored.  The model keeps the predicate abstract (`list_exact` holds for every predicate); the
+    harness computes the set from the CONFIGURED patterns with its reference matcher. -/
+def parseIgnoreSet (s : String) : Bytes → Bool :=
+  let names : List Bytes := if s = "-" then [] else
+    (s.splitOn ",").filterMap fun t => if t.startsWith "n" then some (hexb (t.drop 1).toString) else none
+  fun n => names.contains n
+
+/-- `c11x <ignored names> <n> <entry>*n <op> <args…>` → `R <reply> T <n> <entry>*n`: `c11` under an extensional predicate. -/
+def fsStepX (a : List String) : String :=
+  match a with
+  | ig :: n :: rest =>
+    let k := num n
+    let ents := (rest.take k).filterMap parseEntry
+    if ents.length ≠ k then "bad-tree" else
+    match parseReq (rest.drop k) with
+    | none => "bad-op"
+    | some req =>
+      let r := handle [] (parseIgnoreSet ig) ents req
+      s!"R {showReply r.2} T {r.1.length}" ++ String.join (r.1.map fun e => " " ++ showEntry e)
+  | _ => "bad-op"
+
 def c11Handlers : List (String × Handler) := c07Handlers ++ [
   ("c11", fsStep),
+  ("c11x", fsStepX),
   ("typeof", fun (a : List String) => match a with
     | [n] => let tc := typeOfName (hexb n); s!"{toHex tc.1} {toHex tc.2}"
     | _ => "bad-op"),
